@@ -460,10 +460,13 @@ def main(argv):
     a = ap.parse_args(argv)
     if os.environ.get("VERIF_TIER"):
         a.tier = os.environ["VERIF_TIER"]
+    if a.replay and a.prop == "C01":
+        return subprocess.call(["python3-vt", "-m", "ctsym.main", "--replay", a.replay], cwd=VERIF)
     if a.replay:
         return replay_stored(a.replay)
     seed = int(os.environ.get("VERIF_SEED", "0") or 0)
     if a.prop == "C01":
-        from ctsym import main as ctmain  # type: ignore
-        return ctmain.check(a.tier, seed)
+        # the relational engine needs the z3 bindings of the tooling venv
+        cmd = ["python3-vt", "-m", "ctsym.main", a.tier]
+        return subprocess.call(cmd, cwd=VERIF, env=dict(os.environ, VERIF_SEED=str(seed)))
     return check(a.prop, a.tier, a.only, seed)
